@@ -76,7 +76,9 @@ func allPaths(ns []*scopeNode, prefix []string, msgOnly bool, out *[][]string) {
 
 func genScopeCase(r *vh.Rand) *scopeCase {
 	names := []string{"A", "B", "C"}
-	if r.Chance(30) {
+	if r.Chance(15) {
+		names = []string{"A", "option", "string", "B", "optional"}
+	} else if r.Chance(30) {
 		names = []string{"A", "B", "Sc", "V1", "Other"}
 	}
 	pk := vh.Pick(r, [][2]string{{"sc.v1", "other.v1"}, {"sc.v1.service", "sc.v1"}, {"service.v1.service", "service.v1"}, {"a.b", "a.c"}, {"topic.v1.topic", "topic.v1"}, {"sc.v1", "sc.v1.sub"}})
